@@ -586,6 +586,20 @@ def check_C05(run):
                                        {"task": t, "dep": d, "got": got, "expected": exp_ts}, i))
                 else:
                     bump("deps_selected_checked")
+        # the rule speaks of "the recorded version whose commit is ...": a version produced now has to be
+        # recorded under the commit that is checked out now (none without git / with git disabled / before
+        # the first commit), or every later selection is off
+        rows_after = st.after["rows"] if st.after is not None and isinstance(st.after["rows"], list) else None
+        if rows_after is not None and not inv.killed:
+            exp_commit = git.head_hash if (git.uses_git and git.head) else None
+            known = {tuple(r) for r in rows}
+            for r in rows_after:
+                if tuple(r) not in known and r[0] in tasks:
+                    if r[2] != exp_commit:
+                        V.append(Violation("C05", "new-version-recorded-under-another-commit-than-the-checked-out-one (%s)" % mode,
+                                           {"row": list(r), "expected": exp_commit}, i))
+                    else:
+                        bump("new_version_commit_checked")
         if git.uses_git and git.head:
             # how interesting was the choice?
             for t in tasks:
@@ -1303,7 +1317,11 @@ def check_C11(run):
             if {(r[0], r[1]) for r in rows_b} & {(r[0], r[1]) for r in sel}:
                 continue  # the project does not lack those versions: C12's business
             if any(M.out_dir_rel(r[0], r[1]) in st.before["tree"] for r in sel):
-                continue  # an unrecorded left-over directory is in the way: C12's business as well
+                # an unrecorded left-over directory is in the way: refusing is C12's business; a restore that
+                # reports success still has to hand back exactly the archived trees, not a mixture
+                reach["leftover_directory_in_the_way"] = reach.get("leftover_directory_in_the_way", 0) + 1
+                if inv.code != 0:
+                    continue
             if inv.code != 0:
                 V.append(Violation("C11", "restore-failed-into-project-that-lacks-the-versions",
                                    {"err": inv.err.decode("utf-8", "replace")[-400:],
